@@ -142,8 +142,14 @@ pub trait Geodesics: EllipsoidBase {
             let aasin = U1cos * U2cos * llsin / sssin;
             aacos2 = 1. - aasin * aasin;
 
-            // cosine of 2 times σ_m, the angular separation from the midpoint to the equator
-            ssmx2cos = sscos - 2. * U1sin * U2sin / aacos2;
+            // cosine of 2 times σ_m, the angular separation from the midpoint to the equator.
+            // On equatorial lines α is 90°, so cos²α = 0, and cos 2σ_m is conventionally 0
+            // (Vincenty, 1975): the terms it enters are all multiplied by cos²α anyway
+            ssmx2cos = if aacos2 == 0. {
+                0.
+            } else {
+                sscos - 2. * U1sin * U2sin / aacos2
+            };
             let C = (4. + f * (4. - 3. * aacos2)) * f * aacos2 / 16.;
             let ll_next = L
                 + (1. - C)
